@@ -13,24 +13,20 @@ theorem unsafe_isSpace : ∀ c, isUnsafeUrlChar c = true → isSpace c = true :=
   rcases h with (h | h) | h <;> (rw [h]; decide)
 
 theorem segChar_spec {c : Char} (h : segChar c = true) :
-    c ≠ '/' ∧ c ≠ '?' ∧ c ≠ '#' ∧ c ≠ ';' ∧ isSpace c = false := by
+    c ≠ '/' ∧ c ≠ '?' ∧ c ≠ '#' ∧ c ≠ ';' ∧ isUnsafeUrlChar c = false := by
   unfold segChar at h
   simp only [Bool.and_eq_true, decide_eq_true_eq, Bool.not_eq_true'] at h
   exact ⟨h.1.1.1.1, h.1.1.1.2, h.1.1.2, h.1.2, h.2⟩
 
 theorem segChar_pathChar {c : Char} (h : segChar c = true) : pathChar c = true := by
   obtain ⟨_, h2, h3, _, h5⟩ := segChar_spec h
-  have : isUnsafeUrlChar c = false := by
-    cases hu : isUnsafeUrlChar c with
-    | false => rfl
-    | true => rw [unsafe_isSpace c hu] at h5; exact absurd h5 (by simp)
-  simp [pathChar, h2, h3, this]
+  simp [pathChar, h2, h3, h5]
 
 theorem segOk_spec {s : Str} (h : segOk s = true) :
-    s ≠ [] ∧ (∀ c ∈ s, segChar c = true) ∧ isDotSeg s = false := by
+    s ≠ [] ∧ (∀ c ∈ s, segChar c = true) ∧ isDotSeg s = false ∧ blankHead s = false ∧ blankLast s = false := by
   unfold segOk at h
   simp only [Bool.and_eq_true, Bool.not_eq_true', List.all_eq_true] at h
-  exact ⟨by intro e; rw [e] at h; simp at h, h.1.2, h.2⟩
+  exact ⟨by intro e; rw [e] at h; simp at h, h.1.1.1.2, h.1.1.2, h.1.2, h.2⟩
 
 theorem segOk_not_mem_slash {s : Str} (h : segOk s = true) : '/' ∉ s :=
   fun hm => (segChar_spec ((segOk_spec h).2.1 _ hm)).1 rfl
@@ -86,13 +82,6 @@ theorem slashed_no_semi (segs : List Str) (h : ∀ s ∈ segs, segOk s = true) :
   · exact absurd hc (by decide)
   · exact segOk_not_mem_semi (h s hs) hc
 
-theorem slashed_no_space (segs : List Str) (h : ∀ s ∈ segs, segOk s = true) :
-    ∀ c ∈ slashed segs, isSpace c = false := by
-  intro c hc
-  rcases mem_slashed hc with hc | ⟨s, hs, hc⟩
-  · rw [hc]; decide
-  · exact (segChar_spec ((segOk_spec (h s hs)).2.1 c hc)).2.2.2.2
-
 /-- non-empty slash-free segments, each preceded by one slash: no `//` -/
 theorem slashed_noDbl (segs : List Str) (hne : ∀ s ∈ segs, s ≠ []) (hsl : ∀ s ∈ segs, '/' ∉ s) :
     hasInfix (slashed segs) dblSlash = false := by
@@ -124,6 +113,24 @@ theorem strip_of_no_space (s : Str) (h : ∀ c ∈ s, isSpace c = false) : strip
   unfold strip lstrip rstrip
   rw [dropWhile_of_all_false _ _ h, dropWhile_of_all_false _ _ (by simpa using h), List.reverse_reverse]
 
+/-- **`s.strip() == s` when `s` neither starts nor ends with white space** -/
+theorem strip_of_ends (s : Str) (h1 : blankHead s = false) (h2 : blankLast s = false) : strip s = s := by
+  have hl : lstrip s = s := by
+    unfold lstrip
+    cases s with
+    | nil => rfl
+    | cons c cs =>
+      have : isSpace c = false := by simpa [blankHead] using h1
+      rw [List.dropWhile_cons_of_neg (by simp [this])]
+  unfold strip rstrip
+  rw [hl]
+  cases hr : s.reverse with
+  | nil => rw [← List.reverse_reverse s, hr]; rfl
+  | cons c cs =>
+    have hc : s.getLast? = some c := by rw [List.getLast?_eq_head?_reverse, hr]; rfl
+    have : isSpace c = false := by simpa [blankLast, hc] using h2
+    rw [List.dropWhile_cons_of_neg (by simp [this]), ← hr, List.reverse_reverse]
+
 theorem join_head? (s : Str) (ss : List Str) (hs : s ≠ []) : (join ['/'] (s :: ss)).head? = s.head? := by
   cases ss with
   | nil => rfl
@@ -153,11 +160,58 @@ theorem join_getLast? (segs : List Str) (hne : segs ≠ []) (hl : segs.getLast h
       rw [List.getLast?_append, ih', hc]
       simp [List.getLast_cons hq, hc]
 
+/-- the path of good segments does not end with white space -/
+theorem blankLast_slashed (segs : List Str) (hne : segs ≠ []) (h : ∀ s ∈ segs, segOk s = true) :
+    blankLast (slashed segs) = false := by
+  have hlast := segOk_spec (h (segs.getLast hne) (List.getLast_mem hne))
+  have hg := join_getLast? segs hne hlast.1
+  have hJ : join ['/'] segs ≠ [] := by
+    intro e
+    rw [e] at hg
+    cases hx : segs.getLast hne with
+    | nil => exact hlast.1 hx
+    | cons c cs =>
+      rw [hx] at hg
+      have : (c :: cs).getLast? = some ((c :: cs).getLast (by simp)) := List.getLast?_eq_some_getLast (by simp)
+      rw [this] at hg
+      cases hg
+  rw [slashed_eq_join segs hne]
+  unfold blankLast
+  rw [getLast?_cons_of_ne_nil _ _ hJ, hg]
+  exact hlast.2.2.2.2
+
+/-- `strip()` leaves the path of good segments alone -/
+theorem strip_slashed (segs : List Str) (hne : segs ≠ []) (h : ∀ s ∈ segs, segOk s = true) :
+    strip (slashed segs) = slashed segs := by
+  apply strip_of_ends _ _ (blankLast_slashed segs hne h)
+  cases segs with
+  | nil => exact absurd rfl hne
+  | cons s ss => rfl
+
+/-- **`"/".join(part.strip() for part in path.split("/")) == path`** for the path of good
+segments: there is no blank around a segment to drop -/
+theorem stripSegments_slashed (segs : List Str) (hne : segs ≠ []) (h : ∀ s ∈ segs, segOk s = true) :
+    stripSegments (slashed segs) = slashed segs := by
+  unfold stripSegments
+  rw [slashed_eq_join segs hne, splitOn_cons_sep,
+    splitOn_join '/' segs hne (fun s hs c => (segChar_spec ((segOk_spec (h s hs)).2.1 '/' c)).1 rfl)]
+  have hm : segs.map strip = segs := by
+    have : ∀ s ∈ segs, strip s = s := fun s hs =>
+      strip_of_ends s (segOk_spec (h s hs)).2.2.2.1 (segOk_spec (h s hs)).2.2.2.2
+    calc segs.map strip = segs.map id := List.map_congr_left this
+      _ = segs := List.map_id segs
+  rw [List.map_cons, hm]
+  have : strip ([] : Str) = [] := rfl
+  rw [this]
+  cases segs with
+  | nil => exact absurd rfl hne
+  | cons s ss => simp [join]
+
 /-- **`pathsplit("/" + "/".join(segs)) == segs`** for good segments -/
 theorem pathsplit_slashed (segs : List Str) (hne : segs ≠ []) (h : ∀ s ∈ segs, segOk s = true) :
     pathsplit (slashed segs) = segs := by
   unfold pathsplit
-  rw [strip_of_no_space _ (slashed_no_space segs h), slashed_eq_join segs hne]
+  rw [strip_slashed segs hne h, slashed_eq_join segs hne]
   have hJ : join ['/'] segs ≠ [] ∧ (∀ c, (join ['/'] segs).head? = some c → c ≠ '/') ∧
       (∀ c, (join ['/'] segs).getLast? = some c → c ≠ '/') := by
     cases segs with
